@@ -172,11 +172,6 @@ Theorem C05_lint_sub_interp_calls_refuted : exists n i lint interp p,
   N.testbit lint p = true /\ N.testbit interp p = false.
 Proof. exact lint_sub_interp_calls_refuted. Qed.
 
-Theorem C05_lint_sub_interp_ops_refuted : exists op lty lint interp p rty form,
-  In (op, lty, lint, interp) obs_ops /\ In (p, rty, form) op_cells_existing /\
-  N.testbit lint p = true /\ N.testbit interp p = false.
-Proof. exact lint_sub_interp_ops_refuted. Qed.
-
 Print Assumptions C05_mask_all_iff.
 Print Assumptions C05_mask_some_iff.
 Print Assumptions C05_multi_scope_exact.
@@ -203,4 +198,3 @@ Print Assumptions C05_lint_sub_interp_stmts.
 Print Assumptions C05_lint_types_eq_interp.
 Print Assumptions C05_lint_sub_interp_vars_refuted.
 Print Assumptions C05_lint_sub_interp_calls_refuted.
-Print Assumptions C05_lint_sub_interp_ops_refuted.
